@@ -201,7 +201,24 @@ func checkC16(c *Ctx) {
 	}
 	if f := c.fn("C16.3", dt, "Listener", "acceptLoop"); f != nil {
 		found := false
+		// the accept loop, its closures, and the same-package functions it calls or starts as goroutines
+		scope := withAnon(f)
 		for _, g := range withAnon(f) {
+			eachInstr(g, func(in ssa.Instruction) {
+				if ci, ok := in.(ssa.CallInstruction); ok {
+					if h := ci.Common().StaticCallee(); h != nil && h.Blocks != nil && h.Package() == f.Package() && h != f {
+						dup := false
+						for _, s0 := range scope {
+							dup = dup || s0 == h
+						}
+						if !dup {
+							scope = append(scope, withAnon(h)...)
+						}
+					}
+				}
+			})
+		}
+		for _, g := range scope {
 			for _, ci := range callsIn(g, shortIs("chFromID")) {
 				found = true
 				call := ci.(*ssa.Call)
